@@ -29,6 +29,8 @@ def main():
     film = tdgl.Polygon("film", points=box(6, 4, points=61))
     holes = [tdgl.Polygon("hole", points=circle(0.6, center=(-1.2, 0.3), points=21))]
     terms = [tdgl.Polygon("source", points=box(0.2, 2.4, center=(-3, 0))), tdgl.Polygon("drain", points=box(0.2, 2.4, center=(3, 0)))]
+    if cfg.get("four_terminals"):
+        terms += [tdgl.Polygon("top", points=box(1.8, 0.2, center=(0, 2))), tdgl.Polygon("bottom", points=box(1.8, 0.2, center=(0, -2)))]
     dev = tdgl.Device("d", layer=layer, film=film, holes=holes, terminals=terms, probe_points=[(-1.5, -1.0), (1.5, 1.0)])
     dev.make_mesh(max_edge_length=cfg.get("mel", 0.8), smooth=cfg.get("smooth", 2))
     out = {"mesh": {}}
@@ -48,7 +50,15 @@ def main():
     opts = tdgl.SolverOptions(solve_time=cfg.get("solve_time", 0.2), dt_init=2e-3, dt_max=2e-2, adaptive=cfg.get("adaptive", True),
                               save_every=10, progress_interval=10 ** 9, pause_on_interrupt=False, output_file=path,
                               include_screening=cfg.get("screening", False), screening_tolerance=1e-2)
-    sol = tdgl.solve(dev, opts, applied_vector_potential=A, terminal_currents={"source": 2.0, "drain": -2.0})
+    if cfg.get("four_terminals"):
+        # time-dependent, numpy-scalar, non-representable currents through four terminals: any dependence of the order in
+        # which they are added up on the process (hash seed) shows in the last bit
+        def currents(t):
+            a, b, c = np.float64(1.1) * np.tanh(5 * t + 0.1), np.float64(0.7) * np.cos(3 * t), np.float64(1e-3) / 3
+            return {"source": a, "top": b, "bottom": c, "drain": -(a + b + c)}
+    else:
+        currents = {"source": 2.0, "drain": -2.0}
+    sol = tdgl.solve(dev, opts, applied_vector_potential=A, terminal_currents=currents)
     data = {}
     with h5py.File(sol.path, "r") as f:
         def visit(name, obj):
